@@ -478,25 +478,32 @@ Section DisplayMath.
   Theorem display_simple fuel st buf t ename st' o rest :
     expand_display_math T rec fuel st buf t ename false = Ok (st', (o, rest)) ->
     displayed_simple st' = true ->
-    exists ph pc,
+    (exists ph pc,
       hd_error (get_repls st' true) = Some ph /\
       o = [ActionT (pos t); SpaceF (pos t) [c_space; c_space]; TextF (pos t) ph]
           ++ pc ++ [ActionT (pos t)] /\
       (pc = [] \/ exists c, pc = [TextF (pos t) [c]]
-                            /\ mem_str [c] (t_math_punctuation T) = true).
+                            /\ mem_str [c] (t_math_punctuation T) = true)) \/
+    (* the equation has no end: it is left as the full mode renders it,
+       with its error mark *)
+    (exists out z,
+      display_sections T rec fuel st buf (pos t) ename true true
+        [ActionT (pos t); SpaceF (pos t) [c_space; c_space]] = Ok (st', out, rest, z, false)).
   Proof.
     unfold expand_display_math.
     destruct (display_sections T rec fuel st buf (pos t) ename true true _)
-      as [[[[st1 out] rest1] z]| | |]; cbn [rbind]; try discriminate.
+      as [[[[[st1 out] rest1] z] closed]| | |]; cbn [rbind]; try discriminate.
     destruct (last_pos out) as [lp| | |]; cbn [rbind]; try discriminate.
-    destruct (displayed_simple st1) eqn:Eds.
-    - destruct (get_repls st1 true) as [|ph r] eqn:Eg; [discriminate|].
-      intros H Hs. inversion H; subst. exists ph.
-      destruct (rev (strip (t_is_space T) (get_text_direct out))) as [|c rr].
-      + exists []. rewrite Eg. repeat split. left. reflexivity.
-      + destruct (mem_str [c] (t_math_punctuation T)) eqn:Em.
-        * exists [TextF (pos t) [c]]. rewrite Eg. repeat split. right. exists c. split; [reflexivity | exact Em].
+    destruct (displayed_simple st1) eqn:Eds; cbn [andb].
+    - destruct closed.
+      + destruct (get_repls st1 true) as [|ph r] eqn:Eg; [discriminate|].
+        intros H Hs. inversion H; subst. left. exists ph.
+        destruct (rev (strip (t_is_space T) (get_text_direct out))) as [|c rr].
         * exists []. rewrite Eg. repeat split. left. reflexivity.
+        * destruct (mem_str [c] (t_math_punctuation T)) eqn:Em.
+          -- exists [TextF (pos t) [c]]. rewrite Eg. repeat split. right. exists c. split; [reflexivity | exact Em].
+          -- exists []. rewrite Eg. repeat split. left. reflexivity.
+      + intros H Hs. inversion H; subst. right. exists out, z. reflexivity.
     - intros H Hs. inversion H; subst. congruence.
   Qed.
 
@@ -509,7 +516,7 @@ Section DisplayMath.
   Proof.
     unfold expand_display_math.
     destruct (display_sections T rec fuel st buf (pos t) ename true true _)
-      as [[[[st1 out] rest1] z]| | |]; cbn [rbind]; try discriminate.
+      as [[[[[st1 out] rest1] z] closed]| | |]; cbn [rbind]; try discriminate.
     destruct (last_pos out) as [lp| | |]; cbn [rbind]; try discriminate.
     intros H. exists lp.
     destruct (rev (strip (t_is_space T) (get_text_direct out))) as [|c rr].
